@@ -51,6 +51,15 @@ def run_bodies(prop, tier, seed):
         for i in range(0, len(scns), B):
             chk.machine_family(name + ("-%d" % (i // B) if len(scns) > B else ""), scns[i:i + B],
                                props=("AnswersAreSLD", "CleanAfterEnd", "BarriersOK"), features=features, opts_list=MODES)
+    # data-dependent bodies: generators and tests on shared variables, deeper nesting than the
+    # exhaustive family reaches (no denotational reference here: the machine is the oracle)
+    from .. import gen
+    n = 1500 if tier == "quick" else 25000
+    dd = [gen.dd_scenario(rnd) for _ in range(n)]
+    if prop == "C05":
+        dd = [s for s in dd if "cut" in bodies.kinds(s["scripts"]["P"]["t/3"][0]["body"])][: n // 2]
+    for i in range(0, len(dd), 5000):
+        chk.machine_family("data-dependent-bodies-%d" % (i // 5000), dd[i:i + 5000], props=("CleanAfterEnd", "BarriersOK"), features=features, opts_list=MODES)
     chk.exhaustive = (tier == "thorough")
     need = ["DoCut", "DoConj", "DoCallClause"] + (["DoDisj", "DoIte", "DoNot", "DoCommit"] if prop == "C06" else [])
     missing = [e for e in need if not chk.events.get(e)]
